@@ -166,7 +166,7 @@ def drive(item):
         while k < len(evs):
             e = evs[k]
             nxt = evs[k + 1] if k + 1 < len(evs) else None
-            if e["e"] == "Enqueue" and not e["attrs"] and nxt is not None and nxt["e"] == "Cancel" and nxt["t"] == run.n:
+            if e["e"] == "Enqueue" and not e["attrs"] and not e.get("nopair") and nxt is not None and nxt["e"] == "Cancel" and nxt["t"] == run.n:
                 events.extend(run.apply_pair(e, nxt))
                 k += 2
                 continue
